@@ -16,6 +16,7 @@ package proto
 
 import (
 	"bytes"
+	"fmt"
 	"io"
 	"strconv"
 )
@@ -47,6 +48,9 @@ func newArrayWithParser(parser *Parser) (*Array, error) {
 	}
 	if arraySize < 0 {
 		return NewArray(), nil
+	}
+	if maxArrayLength < arraySize {
+		return nil, fmt.Errorf(errorInvalidArrayLength, arraySize)
 	}
 
 	// Gets all array messages
